@@ -364,6 +364,22 @@ pub proof fn lemma_positive_types(s: Schedule, changed: Seq<VehicleIdx>, vts: Se
         assert(outs[i] == Some(vt));
     }
 }
+/// sort + dedup of the kept types yields the type list
+pub proof fn lemma_sorted_dedup_is_type_list(s: Schedule, changed: Seq<VehicleIdx>, listed: Seq<VehicleTypeIdx>, q: Seq<VehicleTypeIdx>)
+    requires
+        forall|vt: VehicleTypeIdx| #[trigger] listed.contains(vt) <==> idr_recomputed_type(s, changed, vt),
+        q.to_multiset() == listed.to_multiset(), sw_sorted(q),
+    ensures idr_type_list(s, changed, sw_dedup(q)),
+{
+    q.to_multiset_ensures();
+    listed.to_multiset_ensures();
+    assert forall|vt: VehicleTypeIdx| #[trigger] q.contains(vt) <==> listed.contains(vt) by {
+        assert(q.to_multiset().count(vt) == listed.to_multiset().count(vt));
+        assert(q.contains(vt) <==> q.to_multiset().count(vt) > 0);
+        assert(listed.contains(vt) <==> listed.to_multiset().count(vt) > 0);
+    }
+    lemma_dedup_sorted(q);
+}
 /// those of the listed vehicles that are real vehicles of the schedule, in order
 pub open spec fn sw_keep(vs: Seq<VehicleIdx>, sched: Schedule) -> Seq<VehicleIdx>
     decreases vs.len(),
